@@ -1,2 +1,85 @@
--- driver stub (not built yet)
-def main : IO Unit := pure ()
+import QmcModel.Proto
+import QmcModel.Basic
+import QmcModel.Rand
+import QmcModel.Interaction
+import QmcModel.Loop
+import QmcModel.Generic
+open Qmc Qmc.Proto
+
+/-! Line-protocol driver for C04 (generic sampler: loop update, exit distribution, start draw map,
+flags/offset bookkeeping, free-spin refresh, pipeline order). -/
+
+def buildQ (doLoop : String) (calls : String) : Option GQmc :=
+  match makeCalls (GQmc.init (doLoop == "1")) (parseCalls calls) with
+  | .ok q => some q
+  | _ => none
+
+def showLeg (l : Leg) : String := s!"{l.rel}{if l.out then "o" else "i"}"
+
+def parseLeg (s : String) : Leg :=
+  let cs := s.toList
+  let digits := cs.filter Char.isDigit
+  ⟨parseNat (String.ofList digits), cs.getLast? == some 'o'⟩
+
+def step (toks : List String) : String :=
+  match toks with
+  -- exact trajectory of one loop update
+  | ["loop", calls, state, slots, script] =>
+    match buildQ "1" calls with
+    | none => "bad-calls"
+    | some q =>
+      let cfg : Config := { state := parseBits state, slots := parseSlots slots }
+      let (cfg', rs) := loopUpdate (genericW q) cfg (RS.ofScript (parseNats script))
+      s!"{showBits cfg'.state} {showSlots cfg'.slots} {rs.verdict}"
+  -- start op / leg / side draw map
+  | ["start", slots, script] =>
+    let sl := parseSlots slots
+    match loopStart sl (RS.ofScript (parseNats script)) with
+    | (some (p, leg), rs) => s!"{p} {showLeg leg} {rs.verdict}"
+    | (none, rs) => s!"none - {rs.verdict}"
+  -- cumulative exit thresholds at one vertex
+  | ["exitdist", calls, op, ent] =>
+    match buildQ "1" calls, parseOp op with
+    | some q, some o =>
+      let cum := exitCumulative (genericW q o.bond) (o.ins, o.outs) (parseLeg ent) o.vars.length
+      String.intercalate " " (cum.map showApprox)
+    | _, _ => "bad-input"
+  -- one scripted exit draw at one vertex
+  | ["exit", calls, op, ent, word] =>
+    match buildQ "1" calls, parseOp op with
+    | some q, some o =>
+      match firstVisit (genericW q) o (parseLeg ent) (RS.ofScript [parseNat word]) with
+      | (some ex, rs) => s!"{showLeg ex} {showOp (passThrough o (parseLeg ent) ex)} {rs.verdict}"
+      | (none, rs) => s!"none - {rs.verdict}"
+    | _, _ => "bad-input"
+  -- flags, offset, energy
+  | ["gate", doLoop, calls, avgN, beta] =>
+    let cs := parseCalls calls
+    -- which calls are accepted, one by one
+    let (q, acc) := cs.foldl (fun (st : Option GQmc × List Bool) c =>
+      match st.1 with
+      | none => (none, st.2)
+      | some q => match makeCall q c with
+        | .ok q' => (some q', st.2 ++ [true])
+        | .err => (some q, st.2 ++ [false])
+        | .panic => (none, st.2)) (some (GQmc.init (doLoop == "1")), [])
+    match q with
+    | none => "P"
+    | some q =>
+      s!"{showBits acc} {q.bonds.length} {showBool (shouldDoClusterUpdate q)} {showBool (shouldDoLoopUpdate q)} {showRat q.offset} {showNats q.nonConstDiags} {showApprox (energyForAverageN q (parseRat avgN) (parseRat beta))}"
+  -- free-spin refresh
+  | ["free", state, slots, script] =>
+    let cfg : Config := { state := parseBits state, slots := parseSlots slots }
+    let (cfg', rs) := flipFreeBits cfg (RS.ofScript (parseNats script))
+    s!"{showBits cfg'.state} {rs.verdict}"
+  -- pipeline: which of the optional sub-updates `timestep` runs; `combos` lists the
+  -- (loop, cluster) combinations whose composition reproduced `timestep` on the real code
+  | ["pipe", doLoop, calls, combos] =>
+    match buildQ doLoop calls with
+    | none => "bad-calls"
+    | some q =>
+      let want := s!"{showBool (shouldDoLoopUpdate q)}{showBool (shouldDoClusterUpdate q)}"
+      if (combos.splitOn ",").contains want then "ok" else s!"model-wants-{want}"
+  | _ => "bad-op"
+
+def main : IO Unit := run step
